@@ -20,8 +20,14 @@
     grid.split  X Y Z                         -> vol of the two halves under k-, i-, j-subdivision (6 doubles)
     grid.egrid  nx ny nz unit ffrom COORD ZCORN actnum mapaxes mapunits nnc  -> file bytes (hex)
     grid.load   feet cm filehex               -> nx ny nz|COORD|ZCORN|actnum|nactive|mapaxes|mapunits|nfix
+    grid.seq    nx ny nz kind COORD ZCORN actnum op;op;…  -> answer/digest;…   (one EclipseGrid object, see
+                `Model/GridState.lean`; kind = cp (corner-point vectors, `-` = actnum nullptr) | plain;
+                ops: V | Q | q:g | A | R:mask | Z:zcorn:mask | C:mask | S:unit:ffrom:tosi | L:unit:ffrom:tosi;
+                digest = nactive,getCellVolume of every cell,zcorn_fixed)
 -/
 import OpmVerif.Model.Grid
+import OpmVerif.Model.GridState
+import OpmVerif.Model.GridFixup
 import OpmVerif.Model.EclBin
 -- driver: prefix=grid handler=OpmVerif.Grid.handle
 
@@ -63,29 +69,11 @@ def tabulate (n : Nat) (f : Nat → Float) : Array Float := (Array.range n).map 
 def parseInts (s : String) : Option (List Int) :=
   if s = "-" then some [] else (s.splitOn ",").mapM String.toInt?
 
-/-- `ZcornMapper::fixupZCORN` on the stored array (sequential, order-dependent stores).
-Executable model for the correspondence; no theorem is stated about it. -/
-def fixupZCORN (d : Dims) (z0 : Array Float) : Nat × Array Float := Id.run do
-  let mut z := z0
-  let mut cnt := 0
-  let sign : Float :=
-    if z.getD (zcornIdx d 0 0 0 0) 0.0 <= z.getD (zcornIdx d 0 0 (d.nz - 1) 4) 0.0 then 1.0 else -1.0
-  for k in [0:d.nz] do
-    for j in [0:d.ny] do
-      for i in [0:d.nx] do
-        for c in [0:4] do
-          if k > 0 then
-            let i1 := zcornIdx d i j (k - 1) (c + 4)
-            let i2 := zcornIdx d i j k c
-            if (z.getD i2 0.0 - z.getD i1 0.0) * sign < 0.0 then
-              z := z.setIfInBounds i2 (z.getD i1 0.0)
-              cnt := cnt + 1
-          let i1 := zcornIdx d i j k c
-          let i2 := zcornIdx d i j k (c + 4)
-          if (z.getD i2 0.0 - z.getD i1 0.0) * sign < 0.0 then
-            z := z.setIfInBounds i2 (z.getD i1 0.0)
-            cnt := cnt + 1
-  return (cnt, z)
+/-- `ZcornMapper::fixupZCORN` on a stored array: the gather-form model of `Model/GridFixup.lean`
+(per-line running clamp), tabulated.  Compared bit for bit with the C++ (arrays and count). -/
+def fixupZCORN (d : Dims) (z0 : Array Float) : Nat × Array Float :=
+  let r := fixupG d (fn z0)
+  (r.1, tabulate z0.size r.2)
 
 def showCorners (c : Corners Float) : String :=
   showF64s (tabulate 8 c.X) ++ " " ++ showF64s (tabulate 8 c.Y) ++ " " ++ showF64s (tabulate 8 c.Z)
@@ -185,6 +173,88 @@ def loadEgrid (feet cm : Float) (as : List OpmVerif.Ecl.Arr) : Option String := 
     | _, _ => "-"
   pure (s!"{d.nx} {d.ny} {d.nz}|{showF64s coord}|{showF64s zcorn}|" ++
     ",".intercalate (act.map toString) ++ s!"|{m.nactive}|{mapaxes}|{mapunits}|{nfix}")
+
+/-! ### Operation sequences on one object (`Model/GridState.lean`) -/
+
+/-- `fixupG` with the adjusted array materialised (the closure would otherwise be re-evaluated
+per entry). -/
+def fixF (d : Dims) (z : Nat → Float) : Nat × (Nat → Float) :=
+  let r := fixupZCORN d (tabulate (8 * d.size) z)
+  (r.1, fn r.2)
+
+def mapsStr (m : ActiveMaps) : String :=
+  let g2a := m.g2a.map fun o => match o with | some v => toString v | none => "-1"
+  s!"{m.nactive}|" ++ ",".intercalate g2a ++ "|" ++ ",".intercalate (m.a2g.map toString)
+
+def optF64 (o : Option Float) : String := match o with | some v => f64Hex v | none => "err"
+
+def seqDigest (s : GState Float) : String :=
+  s!"{s.maps.nactive}," ++
+    String.join ((List.range s.d.size).map fun g => optF64 (s.getCellVolume Float.abs g)) ++ s!",{s.nfix}"
+
+/-- `cellsHex` of the harness: the volume goes through `getCellVolume` (cache-aware). -/
+def seqCells (s : GState Float) : String :=
+  String.join ((List.range s.d.size).map fun g =>
+    let c := cellCornersG s.d s.coord s.zcorn g
+    let ctr := cellCenter c
+    let dm := cellDims Float.sqrt c
+    optF64 (s.getCellVolume Float.abs g) ++
+      String.join ([ctr.1, ctr.2.1, ctr.2.2, cellDepth c, dm.1, dm.2.1, dm.2.2, cellThickness c].map f64Hex))
+
+/-- The float arrays `save()` writes for the state, and what `EclipseGrid(file)` makes of them. -/
+def savedF32 (s : GState Float) (ffrom : Float) : List Float32 × List Float32 :=
+  let conv : Float → Float32 := fun x => (ffrom * (x - 0.0)).toFloat32
+  (((List.range (6 * (s.d.nx + 1) * (s.d.ny + 1))).map fun i => conv (s.savedCoord i)),
+   ((List.range (8 * s.d.size)).map fun i => conv (s.savedZcorn i)))
+
+def loadedState (s : GState Float) (unit : String) (ffrom tosi : Float) : GState Float :=
+  let (cf, zf) := savedF32 s ffrom
+  let back : Float32 → Float := if unit = "METRES" then fun x => x.toFloat else fun x => x.toFloat * tosi + 0.0
+  let coord := (cf.map back).toArray
+  let r := fixupZCORN s.d (zf.map back).toArray
+  { d := s.d, coord := fn coord, zcorn := fn r.2, nfix := r.1, actnum := s.actnum,
+    maps := resetACTNUM s.actnum, cache := none, inCoord := none, inZcorn := none }
+
+def seqStep (s : GState Float) (tok : String) : Option (String × GState Float) :=
+  match tok.splitOn ":" with
+  | ["V"] => some (showF64s (s.activeVolumeResult Float.abs).toArray, step Float.abs fixF s .activeVolume)
+  | ["Q"] => some (mapsStr s.maps ++ "|" ++ seqCells s, s)
+  | ["q", g] => some (optF64 (s.getCellVolume Float.abs g.toNat!), s)
+  | ["A"] => some ("ok", step Float.abs fixF s .resetAll)
+  | ["R", m] =>
+    (parseInts m).map fun mask =>
+      (if mask.length ≠ s.d.size then "err" else "ok", step Float.abs fixF s (.reset mask))
+  | ["Z", z, m] =>
+    match parseF64s z, parseInts m with
+    | some z, some mask =>
+      let s' := step Float.abs fixF s (.copyZ (fn z) mask)
+      some (if mask.length ≠ s.d.size then "err" else toString s'.nfix, s')
+    | _, _ => none
+  | ["C", m] =>
+    (parseInts m).map fun mask =>
+      (if mask.length ≠ s.d.size then "err" else "ok", step Float.abs fixF s (.copyA mask))
+  | ["S", unit, ff, _] =>
+    (parseF64s ff).map fun ff =>
+      let (cf, zf) := savedF32 s (fn ff 0)
+      (toHex (OpmVerif.Ecl.encodeFile (egridArrays s.d unit cf zf s.actnum none none [])),
+       step Float.abs fixF s .save)
+  | ["L", unit, ff, ts] =>
+    (parseF64s (ff ++ ts)).map fun f =>
+      let s' := loadedState s unit (fn f 0) (fn f 1)
+      (toString s'.nfix, s')
+  | _ => none
+
+def seqRun (s0 : GState Float) (toks : List String) : String :=
+  let r := toks.foldl (fun (acc : Option (List String × GState Float)) tok =>
+    match acc with
+    | none => none
+    | some (out, s) =>
+      match seqStep s tok with
+      | none => none
+      | some (a, s') => some ((a ++ "/" ++ seqDigest s') :: out, s')) (some ([], s0))
+  match r with
+  | some (out, _) => ";".intercalate out.reverse
+  | none => "bad-op"
 
 def optNat (o : Option Nat) : String := match o with | some v => toString v | none => "err"
 
@@ -296,6 +366,16 @@ def handle (op : String) (args : List String) : String :=
       | .ok as => (loadEgrid (fn f 0) (fn f 1) as).getD "err"
       | .error _ => "err"
     | _, _ => "bad-op"
+  | "grid.seq", [nx, ny, nz, kind, co, zc, act, ops] =>
+    let d : Dims := ⟨nx.toNat!, ny.toNat!, nz.toNat!⟩
+    match parseF64s co, parseF64s zc, parseInts act with
+    | some co, some zc, some a =>
+      let s0 : GState Float :=
+        if kind = "cp" then initCornerPoint fixF d (fn co) (fn zc) (if act = "-" then none else some a)
+        else { d := d, coord := fn co, zcorn := fn zc, nfix := 0, actnum := a, maps := resetACTNUM a,
+               cache := none, inCoord := none, inZcorn := none }
+      seqRun s0 (ops.splitOn ";")
+    | _, _, _ => "bad-op"
   | _, _ => "bad-op"
 
 end OpmVerif.Grid
